@@ -124,6 +124,8 @@ impl<T> SpscRing<T> {
         crate::verif_hooks::media::verif_yield(crate::verif_hooks::media::point::POP_LOAD_TAIL);
         let tail = self.tail.load(Ordering::Acquire);
         if head == tail {
+            #[cfg(rustrtc_verif)]
+            crate::verif_hooks::media::verif_yield(crate::verif_hooks::media::point::POP_RETURN_NONE);
             return None;
         }
 
